@@ -57,6 +57,11 @@ def merge_expressions(exps: BoolExpList) -> BoolExpList:
 def apply_cse(exps: BoolExpList) -> BoolExpList:
     lsts = list(zip(*exps))
     repl, red = cse(list(lsts[1]))
+    # the extracted definitions are put in front of the list: that is only sound when no
+    # expression reads a name the list itself binds and no generated name collides with one
+    bound = set(lsts[0])
+    if any(e.free_symbols & bound for e in lsts[1]) or any(s in bound for s, _ in repl):
+        return exps
     res = repl + list(zip(lsts[0], red))
     return res
 
